@@ -1589,6 +1589,9 @@ impl<'a> Socket<'a> {
     ) -> Option<(IpRepr, TcpRepr<'static>)> {
         debug_assert!(self.accepts(cx, ip_repr, repr));
 
+        // Segment text that arrives after the peer's FIN is ignored (RFC 9293, 3.10.7.4).
+        let fin_received_before = self.rx_fin_received;
+
         // Consider how much the sequence number space differs from the transmit buffer space.
         let (sent_syn, sent_fin) = match self.state {
             // In SYN-SENT or SYN-RECEIVED, we've just sent a SYN.
@@ -2219,6 +2222,11 @@ impl<'a> Socket<'a> {
 
         let payload_len = payload.len();
         if payload_len == 0 {
+            return None;
+        }
+
+        if fin_received_before {
+            net_debug!("ignoring segment text received after the FIN");
             return None;
         }
 
